@@ -30,7 +30,7 @@ ASSUMPTIONS = [
     "values come from small domains; backend=None passed explicitly to a context is outside the domain",
 ]
 SHARDS = {"quick": 12, "thorough": 14}
-FLOORS = {"quick": {"observations": 20000, "thread_interleaved_observations": 3000, "exception_exits": 300, "contexts_created_without_with_inside_a_block": 300, "blocks_left_through_generator_close": 150, "effect_observations_with_a_memmapped_argument": 20},
+FLOORS = {"quick": {"constructors_that_failed_and_were_survived": 300, "observations": 20000, "thread_interleaved_observations": 3000, "exception_exits": 300, "contexts_created_without_with_inside_a_block": 300, "blocks_left_through_generator_close": 150, "effect_observations_with_a_memmapped_argument": 20},
           "thorough": {"observations": 600000, "thread_interleaved_observations": 100000, "exception_exits": 10000, "contexts_created_without_with_inside_a_block": 8000, "blocks_left_through_generator_close": 4000}}
 
 KEYS = ["backend", "n_jobs", "verbose", "prefer", "require", "max_nbytes", "mmap_mode", "temp_folder"]
@@ -309,11 +309,37 @@ def run_thread(tid, nesting, explicits, exit_by_exc, barrier, ctx, out, lock):
             if not agree(got, exp):
                 out["viol"].append(("get_active_backend:" + classify(stack, {}, got, exp), list(stack), {}, got, exp, step, tid))
 
+    def failing_ctor(bad):
+        from joblib import parallel_backend, parallel_config
+        import multiprocessing
+        b = {"None": None, "mp-context": multiprocessing.get_context(), "object": object(), "unknown-name": "no-such-backend",
+             "threads-in-threading": "threading"}[bad["_bad"]]
+        kw = dict(n_jobs=bad["n_jobs"], verbose=bad["verbose"]) if bad["_api"] == "parallel_config" else dict(n_jobs=bad["n_jobs"])
+        if bad["_bad"] == "threads-in-threading":
+            kw["inner_max_num_threads"] = 2
+        try:
+            with warnings.catch_warnings():
+                warnings.simplefilter("ignore")
+                cm = (parallel_config if bad["_api"] == "parallel_config" else parallel_backend)(b, **kw)
+        except Exception:  # noqa
+            with lock:
+                out["failed_ctors"] += 1
+            return
+        # the constructor accepted it after all: it is active now (constructors activate); undo it the documented way
+        cm.unregister()
+        with lock:
+            out["accepted_ctors"] += 1
+
     def rec(i):
         observe(("before-enter", i))
         if i == len(nesting):
             return
         cfg = nesting[i]
+        if cfg.get("_failing_ctor_before"):
+            failing_ctor(cfg["_failing_ctor_before"])
+            observe(("after-failed-constructor", i))
+        if cfg.get("_skip"):
+            return
         try:
             cm = enter_cm(cfg, insts, tid, i)
         except ValueError:
@@ -380,7 +406,7 @@ def run_thread(tid, nesting, explicits, exit_by_exc, barrier, ctx, out, lock):
 
 def run_program(threads_spec, ctx):
     lock = threading.Lock()
-    out = dict(obs=0, viol=[], sigs=[], exc_exits=0, ctor_err=0, inner_nowith=0, generator_exits=0)
+    out = dict(obs=0, viol=[], sigs=[], exc_exits=0, ctor_err=0, inner_nowith=0, generator_exits=0, failed_ctors=0, accepted_ctors=0)
     nthreads = len(threads_spec)
     barrier = threading.Barrier(nthreads)
     ths = []
@@ -399,6 +425,8 @@ def run_program(threads_spec, ctx):
     ctx.count("contexts_created_without_with_inside_a_block", out["inner_nowith"])
     ctx.count("blocks_left_through_generator_close", out["generator_exits"])
     ctx.count("context_ctor_valueerror", out["ctor_err"])
+    ctx.count("constructors_that_failed_and_were_survived", out["failed_ctors"])
+    ctx.count("constructors_expected_to_fail_that_were_accepted", out["accepted_ctors"])
     for s in out["sigs"]:
         ctx.sig(s)
     seen = set()
@@ -509,6 +537,16 @@ def run_case(case, ctx):
             if rng.random() < 0.2:
                 cfg["_inner"] = rand_cfg(rng, 3)
                 cfg["_inner_unregister"] = rng.random() < 0.5
+        # a context whose CONSTRUCTOR fails (a backend object joblib cannot use, an unknown name, contradictory settings), tried
+        # before a block is entered or at the innermost level: the caller survives the error, nothing may have changed
+        rng3 = harness.rng_for(ctx.seed, ID, "failed", case["i"], len(spec))
+        if rng3.random() < 0.5:
+            bad = dict(_bad=rng3.choice(["None", "mp-context", "object", "unknown-name", "threads-in-threading"]), n_jobs=rng3.choice([2, 3, 5]), verbose=rng3.choice([0, 11]),
+                       _api=rng3.choice(["parallel_config", "parallel_config", "parallel_backend"]))
+            if nesting:
+                rng3.choice(nesting)["_failing_ctor_before"] = bad
+            else:
+                nesting.append({"_failing_ctor_before": bad, "_skip": True})
         spec.append((nesting, rand_explicits(rng), [rng.random() < 0.3 for _ in nesting]))
     run_program(spec, ctx)
     if case["i"] % 211 == 0:
